@@ -594,6 +594,47 @@ func ruleKeys(c *Ctx) {
 		} else {
 			l.add("R-KEYS", "v5", key, b.rel(em.Pos()), Discharged, "name := keys[i]; value := obj[name]; no map range", true)
 		}
+		// what the emitter writes is the members as they are now: it answers success only after
+		// the walk over keys (no kept text written in its place — a text kept from an earlier
+		// encoding misses every change made below the object since), and it leaves the object as
+		// it found it
+		{
+			key2 := "emitter: succeeds only after walking keys, and stores nothing into the object"
+			bad2 := ""
+			var header *ssa.BasicBlock
+			allInstrs(em, func(i ssa.Instruction) {
+				if ld, ok := i.(*ssa.UnOp); ok && elemOfKeys(ld, recv) {
+					if h := innermostLoopHeader(ld.Block()); h != nil {
+						header = h
+					}
+				}
+			})
+			if header == nil {
+				bad2 = "no loop over the key list found"
+			} else {
+				ei := errResultIndex(em)
+				for _, r := range liveReturns(em) {
+					if ei >= 0 && b.definitelyNonNilErr(retVal(r, ei), r.Block(), 0) {
+						continue
+					}
+					if !header.Dominates(r.Block()) {
+						bad2 = "the return at " + b.posOf(r) + " can report success without the walk over keys having run: what was written is not the members as they are now"
+					}
+				}
+			}
+			allInstrs(em, func(i ssa.Instruction) {
+				if st, ok := i.(*ssa.Store); ok {
+					if fa, ok := st.Addr.(*ssa.FieldAddr); ok && fa.X == recv {
+						bad2 = "the emitter stores into field " + fieldOfAddr(fa).Field + " of the object at " + b.posOf(st) + ": encoding a document changes it"
+					}
+				}
+			})
+			if bad2 != "" {
+				l.add("R-KEYS", "v5", key2, b.rel(em.Pos()), Violated, bad2, true)
+			} else {
+				l.add("R-KEYS", "v5", key2, b.rel(em.Pos()), Discharged, "every return that may report success is dominated by the loop over keys; no store through the receiver", true)
+			}
+		}
 	}
 }
 
